@@ -143,7 +143,7 @@ func mergeTier(base TierCfg, o *TierCfg) TierCfg {
 }
 
 var defaultTiers = map[string]TierCfg{
-	"quick":    {Unwind: 24, Depth: 200, Steps: 20_000_000, Paths: 50_000, QueryTimeoutS: 10, CrossCheck: 8},
+	"quick":    {Unwind: 24, Depth: 200, Steps: 20_000_000, Paths: 50_000, QueryTimeoutS: 30, CrossCheck: 8},
 	"thorough": {Unwind: 64, Depth: 200, Steps: 100_000_000, Paths: 2_000_000, QueryTimeoutS: 60, CrossCheck: 200},
 }
 
